@@ -37,6 +37,40 @@ Blank   == {" ", "\t", "\r"}
 NL      == "\n"
 DQ      == "\""
 
+(* Characters OUTSIDE the documented token alphabet.  The documented regexes are ASCII by their
+   text ([A-Za-z_][A-Za-z0-9_]* , [ \t\r]+ , digits of the number forms), so none of the
+   characters below belongs to any token class; each may occur only inside a string, a comment
+   or an error token.  A text shown to TLC carries one ASCII STAND-IN per class (TLC cannot keep
+   non-ASCII characters in states); the recorder maps every real character to the stand-in of
+   its class, the tokenizer always sees the real character.  The classes are the ones that a
+   regex written with a Unicode-aware shorthand (\w \d \s \b, [[:alpha:]]-like, \p{..}) could tell
+   apart, so that the expectation "not part of an identifier / number / blank run" is stated - and
+   explored - for each of them separately. *)
+UniLetter  == {"@"}   \* a letter outside ASCII (categories L*): e-acute, lambda, a CJK ideograph
+UniDigit   == {"%"}   \* a decimal digit outside ASCII (Nd): Arabic-Indic, Devanagari, fullwidth, mathematical (non-BMP)
+UniNumber  == {"^"}   \* another numeric character (No, Nl): superscript two, one half, Roman numeral four
+OtherSpace == {"~"}   \* white space that is not one of the three blanks nor the newline: VT, FF, NEL, NBSP, EM SPACE, IDEOGRAPHIC SPACE, LINE SEPARATOR
+UniMark    == {"`"}   \* a combining mark (Mn)
+UniConn    == {"&"}   \* connector punctuation other than the underscore (Pc): undertie
+UniFormat  == {";"}   \* a format character (Cf): the byte-order mark U+FEFF
+OtherChar  == {"$"}   \* any other character in no token: $ % ^ & ~ ` ; \ @ themselves, NUL and other controls, symbols, emoji (non-BMP)
+NonToken   == UniLetter \cup UniDigit \cup UniNumber \cup OtherSpace \cup UniMark \cup UniConn \cup UniFormat \cup OtherChar
+
+ClassName(c) == CASE c \in UniLetter  -> "uni-letter"
+                  [] c \in UniDigit   -> "uni-digit"
+                  [] c \in UniNumber  -> "uni-number"
+                  [] c \in OtherSpace -> "other-space"
+                  [] c \in UniMark    -> "uni-mark"
+                  [] c \in UniConn    -> "uni-connector"
+                  [] c \in UniFormat  -> "uni-format"
+                  [] c \in OtherChar  -> "other-char"
+                  [] c \in Lower \cup Upper \cup {"_"} -> "ascii-idchar"
+                  [] c \in Digit      -> "ascii-digit"
+                  [] c \in Blank      -> "blank"
+                  [] c = NL           -> "newline"
+                  [] c = DQ           -> "quote"
+                  [] OTHER            -> "ascii-symbol"
+
 Keywords == {"void","bool","int","float","str","if","elif","else","case","is","break","continue","in",
              "loop","blob","externblob","enum","ret","do","end","fn","pu","and","or","not","use","from",
              "as","external"}
@@ -47,6 +81,16 @@ MaxFixedLen == 10
 
 Ch(t, p) == SubSeq(t, p, p)
 Sub(t, p, n) == SubSeq(t, p, p + n - 1)
+
+(* The stand-ins really are outside every token class: no identifier / digit / blank / newline /
+   quote character, and no character of any fixed spelling (checked by TLC at start-up). *)
+ASSUME NonTokenSound ==
+    \A c \in NonToken :
+        /\ c \notin IdCont /\ c \notin Digit /\ c \notin Blank /\ c # NL /\ c # DQ
+        /\ \A f \in Fixed : \A q \in 1..Len(f) : Ch(f, q) # c
+ASSUME ClassesDisjoint ==
+    \A c \in NonToken : Cardinality({S \in {UniLetter, UniDigit, UniNumber, OtherSpace, UniMark, UniConn,
+                                              UniFormat, OtherChar} : c \in S}) = 1
 
 AllIn(t, a, b, S) == \A q \in a..b : Ch(t, q) \in S
 
@@ -160,14 +204,27 @@ Spec == Init /\ [][Next]_lexvars
 (* Spec-level invariants: the specification is self-consistent *)
 
 \* tokens are in source order, do not overlap, and only blanks lie between and before them
-Tiling ==
+\* (o: the position lexing started from; 1 except when a window of a long text is validated)
+TilingFrom(o) ==
     /\ \A q \in 1..Len(toks) :
-          LET prevEnd == IF q = 1 THEN 1 ELSE toks[q - 1].p + toks[q - 1].n IN
+          LET prevEnd == IF q = 1 THEN o ELSE toks[q - 1].p + toks[q - 1].n IN
           /\ toks[q].p >= prevEnd
           /\ AllIn(text, prevEnd, toks[q].p - 1, Blank)
-    /\ LET lastEnd == IF toks = <<>> THEN 1 ELSE toks[Len(toks)].p + toks[Len(toks)].n IN
+    /\ LET lastEnd == IF toks = <<>> THEN o ELSE toks[Len(toks)].p + toks[Len(toks)].n IN
           /\ lastEnd <= pos
           /\ AllIn(text, lastEnd, pos - 1, Blank)
+Tiling == TilingFrom(1)
+
+\* a character outside the token alphabet is never part of an identifier, number, fixed spelling or
+\* newline token, and never skipped: it lies inside a string, a comment or an error token
+NonTokenConfined ==
+    /\ \A q \in 1..Len(toks) :
+          toks[q].k \notin {"str", "comment", "err"} =>
+              \A c \in toks[q].p..(toks[q].p + toks[q].n - 1) : Ch(text, c) \notin NonToken
+    /\ \A c \in 1..(pos - 1) :
+          Ch(text, c) \in NonToken =>
+              \E q \in 1..Len(toks) : /\ toks[q].k \in {"str", "comment", "err"}
+                                      /\ toks[q].p <= c /\ c < toks[q].p + toks[q].n
 
 \* no token is empty, and every non-error token is a maximal match
 Maximal ==
